@@ -184,9 +184,52 @@ func (c *Ctx) calleesOf(f *ssa.Function) map[string]bool {
 					out[cal.String()] = true
 				}
 			}
+			// function values handed on (method values such as decimal.Context64.Ceil passed to a helper that
+			// applies them): referenced means possibly called
+			for _, fv := range fnRefsIn(in) {
+				out[fv.String()] = true
+			}
 		})
 	}
 	return out
+}
+
+// fnRefsIn: functions referenced as values by the operands of in (plain functions, closures, bound method values).
+func fnRefsIn(in ssa.Instruction) []*ssa.Function {
+	var out []*ssa.Function
+	var ops []*ssa.Value
+	ops = in.Operands(ops)
+	for _, op := range ops {
+		if *op == nil {
+			continue
+		}
+		if call, isCall := in.(ssa.CallInstruction); isCall && call.Common().Value == *op {
+			continue // the callee position itself
+		}
+		switch x := (*op).(type) {
+		case *ssa.Function:
+			if f := unwrapFn(x); f != nil {
+				out = append(out, f)
+			}
+		case *ssa.MakeClosure:
+			if f, ok := x.Fn.(*ssa.Function); ok {
+				if u := unwrapFn(f); u != nil {
+					out = append(out, u)
+				}
+			}
+		}
+	}
+	return out
+}
+
+// boundContextOf: for `ctx.Method` used as a method value, the receiver it is bound to.
+func boundReceiver(v ssa.Value) ssa.Value {
+	if mc, ok := v.(*ssa.MakeClosure); ok && len(mc.Bindings) == 1 {
+		if f, ok := mc.Fn.(*ssa.Function); ok && strings.HasSuffix(f.Name(), "$bound") {
+			return mc.Bindings[0]
+		}
+	}
+	return nil
 }
 
 type wiring struct {
@@ -207,6 +250,13 @@ func (c *Ctx) everyPathCalls(f *ssa.Function, names []string) bool {
 		call, ok := in.(ssa.CallInstruction)
 		if !ok {
 			return false
+		}
+		for _, fv := range fnRefsIn(in) {
+			for _, m := range names {
+				if fv.String() == m {
+					return true
+				}
+			}
 		}
 		cal := calleeOf(call)
 		if cal == nil {
@@ -285,6 +335,54 @@ func runC17(c *Ctx) {
 		{"regexp", []string{"regexp.MustCompile", "regexp.Compile", "regexp.MatchString", "regexp.Match"}, []string{"regexp.CompilePOSIX", "regexp.MustCompilePOSIX"}, "must match with RE2 (package regexp) syntax", false},
 	})
 	c.R.Floor("C17.antonyms", 12)
+	// ... and hand the primitive's result back as it is (an index converted to a character count, a trimmed or
+	// re-cased string post-processed, is a different function)
+	for _, d := range []struct {
+		name  string
+		prims []string
+	}{{"find", []string{"strings.Index"}}, {"lower", []string{"strings.ToLower"}}, {"upper", []string{"strings.ToUpper"}}, {"trim", []string{"strings.TrimSpace", "strings.Trim"}}, {"replace", []string{"strings.ReplaceAll", "strings.Replace"}}, {"join", []string{"strings.Join"}}} {
+		f := c.BuiltinFn(d.name)
+		if f == nil {
+			continue
+		}
+		bad := ""
+		instrs(f, func(b *ssa.BasicBlock, i int, in ssa.Instruction) {
+			ret, ok := in.(*ssa.Return)
+			if !ok || len(ret.Results) != 2 || !isNilConst(ret.Results[1]) {
+				return
+			}
+			v := ret.Results[0]
+			for {
+				if cv, isCv := v.(*ssa.Convert); isCv {
+					v = cv.X
+					continue
+				}
+				if ct, isCt := v.(*ssa.ChangeType); isCt {
+					v = ct.X
+					continue
+				}
+				break
+			}
+			okp := false
+			if call, isC := v.(*ssa.Call); isC {
+				if cal := calleeOf(call); cal != nil {
+					for _, p := range d.prims {
+						if cal.String() == p {
+							okp = true
+						}
+					}
+					if c.inModule(cal) && c.everyPathCalls(cal, d.prims) {
+						okp = true // a module helper that is itself checked by the wiring rule's reach
+					}
+				}
+			}
+			if !okp {
+				bad = c.P.InstrPos(ret) + " returns " + describeValue(ret.Results[0])
+			}
+		})
+		c.R.Check("C17.primitive-result-unmodified", d.name, c.P.Pos(f.Pos()), bad == "", fmt.Sprintf("`%s` must return the result of %v unmodified; %s", d.name, d.prims, bad))
+	}
+	c.R.Floor("C17.primitive-result-unmodified", 5)
 	c17Shapes(c)
 }
 
@@ -570,6 +668,9 @@ func runC18(c *Ctx) {
 	c18BitOps(c)
 	c18IntegerResultsExact(c)
 	c18ToStringText(c)
+	c18ContextPrecision(c)
+	// a numeric builtin returns a new number and leaves its arguments alone (abs(x) must not turn x positive)
+	c07Fresh(c, "C18.fresh-results")
 	c18RoundDirection(c)
 	// max / min hand back one of their arguments
 	for _, name := range []string{"max", "min"} {
@@ -1137,4 +1238,83 @@ func c18ToStringText(c *Ctx) {
 		}
 	}
 	c.R.Check(rule, c.P.FuncKey(conv), c.P.Pos(conv.Pos()), good, "the text of a number must be the decimal's own rendering (String()), returned unmodified; "+why+": post-processing the text breaks numbers rendered in exponent notation (1.5E+10 -> 1.5E+1)")
+}
+
+// roundsToContext: Context methods of ericlagergren/decimal whose result is rounded to the precision of the context
+// they are called on (confirmed by reading the library: Ceil is Neg(Floor(-x)) and Neg rounds; the arithmetic
+// operations round by definition). Floor and RoundToInt do not reduce the number of digits of an integer result.
+var roundsToContext = map[string]string{
+	"Ceil": "Ceil(x) is computed as Neg(Floor(-x)) and Neg rounds to the context precision",
+	"Neg":  "Neg rounds to the context precision",
+	"Add":  "Add rounds to the context precision",
+	"Sub":  "Sub rounds to the context precision",
+	"Mul":  "Mul rounds to the context precision",
+	"Quo":  "Quo rounds to the context precision",
+	"Rem":  "Rem rounds to the context precision",
+}
+
+// c18ContextPrecision: abs, ceil, floor, round, roundBank, toInt, max, min return exact integers / arguments for every
+// formula number, and formula numbers carry up to 34 digits. A rounding Context method called on a narrower context
+// (Context64 = 16 digits) silently rounds larger values: ceil(123456789012345678.5) became 123456789012345700.
+func c18ContextPrecision(c *Ctx) {
+	const rule = "C18.full-precision-context"
+	n := 0
+	for _, name := range []string{"abs", "ceil", "floor", "round", "roundBank", "toInt", "max", "min"} {
+		f := c.BuiltinFn(name)
+		if f == nil {
+			continue
+		}
+		rr := c.P.Reach([]*ssa.Function{f}, c.inModule, nil)
+		bad := ""
+		for _, g := range rr.Order {
+			instrs(g, func(b *ssa.BasicBlock, i int, in ssa.Instruction) {
+				// direct calls ctx.M(z, x) and method values ctx.M handed to a helper
+				type use struct {
+					fn   *ssa.Function
+					recv ssa.Value
+				}
+				var uses []use
+				if call, ok := in.(*ssa.Call); ok {
+					if cal := calleeOf(call); cal != nil && len(call.Call.Args) > 0 {
+						uses = append(uses, use{cal, call.Call.Args[0]})
+					}
+				}
+				var ops []*ssa.Value
+				ops = in.Operands(ops)
+				for _, op := range ops {
+					if *op == nil {
+						continue
+					}
+					if rv := boundReceiver(*op); rv != nil {
+						mc := (*op).(*ssa.MakeClosure)
+						if u := unwrapFn(mc.Fn.(*ssa.Function)); u != nil {
+							uses = append(uses, use{u, rv})
+						}
+					}
+				}
+				for _, us := range uses {
+					if !strings.HasPrefix(us.fn.String(), "("+decimalPath+".Context).") {
+						continue
+					}
+					n++
+					why, rounds := roundsToContext[us.fn.Name()]
+					if !rounds {
+						continue
+					}
+					is128 := false
+					if u, isU := us.recv.(*ssa.UnOp); isU {
+						if gl, isG := u.X.(*ssa.Global); isG && gl.Name() == "Context128" {
+							is128 = true
+						}
+					}
+					if !is128 {
+						bad = fmt.Sprintf("%s at %s is used on %s: %s", us.fn.Name(), c.P.InstrPos(in), describeValue(us.recv), why)
+					}
+				}
+			})
+		}
+		c.R.Check(rule, name, c.P.Pos(f.Pos()), bad == "", "`"+name+"` must be exact for every 34-digit formula number; "+bad+", so a result with more digits than that context holds is rounded (ceil(123456789012345678.5) = 123456789012345700)")
+	}
+	c.R.Analysed["context_method_calls_in_integer_builtins"] = n
+	c.R.Floor(rule, 6)
 }
